@@ -157,6 +157,12 @@ def gen_program(seed, idx, repo, nfunc=None):
                 static, fname, " , int * * $p_n4" if upp else "")))
     if "struct" in needs:
         items.append(rc.mk_item("type", HELPERS["struct"].format(**prog_names)))
+    # prototypes of the helpers in some programs: their definitions may then move behind their callers
+    helper_protos = rng.random() < 0.5
+    if helper_protos and "deref" in needs:
+        items.append(rc.mk_item("proto", "static int $f_%s ( int * $p_hp ) ;" % prog_names["deref"]))
+    if helper_protos and "divide" in needs:
+        items.append(rc.mk_item("proto", "static int $f_%s ( int $p_ha , int $p_hb ) ;" % prog_names["divide"]))
     for h in ("deref", "divide"):
         if h in needs:
             env = dict(prog_names, hp="hp", ha="ha", hb="hb")
